@@ -245,15 +245,24 @@ fn step_json(s: &xml_schema_generator::verif::Step) -> Value {
 
 /// one session with the hooks recording: Reset, then Begin / hook steps / Return per document
 fn record_session(o: &mut Out, docs: &[Vec<u8>]) -> usize {
+    record_session_cfg(o, docs, None)
+}
+
+/// with `hostile`: every document is read under a random reader configuration and through a chunked reader
+fn record_session_cfg(o: &mut Out, docs: &[Vec<u8>], mut hostile: Option<&mut Rng>) -> usize {
     o.line(&json!({"ev": "Reset"}));
     let mut sess = Session::new();
     let mut calls = 0;
     for bytes in docs {
-        let cfg = ReaderCfg::default_cfg();
+        let (cfg, chunk) = match hostile.as_mut() {
+            Some(r) => (ReaderCfg { trim_text: r.chance(1, 2), expand_empty: r.chance(1, 2), check_end_names: r.chance(1, 2),
+                                    allow_unmatched_ends: r.chance(1, 3) }, [0usize, 1, 2, 3, 7, 64][r.below(6)]),
+            None => (ReaderCfg::default_cfg(), 0),
+        };
         let before = sess.tree.as_ref().map(|t| view_json(&t.verif_view()));
         let op = if before.is_some() { "extend" } else { "parse" };
         o.line(&json!({"ev": "Begin", "op": op, "tree": before.unwrap_or(json!({"none": true})), "doc": String::from_utf8_lossy(bytes), "hex": hex(bytes)}));
-        let (out, steps) = sess.feed_recorded(bytes, &cfg, 0);
+        let (out, steps) = sess.feed_recorded(bytes, &cfg, chunk);
         for s in &steps {
             o.line(&step_json(s));
         }
@@ -306,7 +315,12 @@ pub fn record_parser(a: &Args) {
             }
             docs.push(bytes);
         }
-        calls += record_session(&mut o, &docs);
+        if a.num("hostile", 0) == 1 {
+            let mut r2 = Rng::new(r.next());
+            calls += record_session_cfg(&mut o, &docs, Some(&mut r2));
+        } else {
+            calls += record_session(&mut o, &docs);
+        }
     }
     let lines = o.finish();
     println!("{}", json!({"kind": "parser-trace", "events": lines, "calls": calls}));
